@@ -453,7 +453,7 @@ def _dispatch(case):
 
 
 def run(ck: common.Check):
-    ck.prove(["GeffProps.C06", "GeffProps.C06Links"])
+    ck.prove(["GeffProps.C06", "GeffProps.C06Links", "GeffProps.C06Gen"])
     ck.rule = ("case = history of 2-4 writes on one store: store kind (Path, str, MemoryStore, LocalStore) x foreign siblings "
                "x zarr format x entry point per step (write_arrays, write_dicts, geff.write with 3 backends, both converters) x "
                "overwrite flags x graphs differing in size, id dtype and property sets; streams: corpus, bounded matrix "
